@@ -181,7 +181,7 @@ func flagMethodWrites(p *Prog, m *ssa.Function, sel func(b *ssa.BasicBlock) bool
 
 func c18r2(c *Ctx) {
 	const rule = "C18-R2"
-	c.Rule(rule, "the activation flag is `epoch >= activationEpoch` of the last confirmed epoch; epoch rows follow it, all others are constantly active", 35)
+	c.Rule(rule, "the activation flag is `epoch >= activationEpoch` of the last confirmed epoch; epoch rows follow it, all others are constantly active", 36)
 	n := c.P.NamedType("", "EpochSubscriberHandler")
 	if n == nil {
 		c.Anchor(rule, "interface vmcommon.EpochSubscriberHandler")
@@ -239,6 +239,24 @@ func c18r2(c *Ctx) {
 				}
 				if good {
 					c.OK(rule, FuncName(fn), construct, c.P.InstrPos(call), "the value handed to the flag writer is exactly epoch >= "+epochField)
+					// the write happens for every notification: no path through EpochConfirmed avoids it (a skipped notification makes the flag follow
+					// something else than the most recently confirmed epoch)
+					cut := map[edge]bool{}
+					for _, s := range b.Succs {
+						cut[edge{b, s}] = true
+					}
+					skipped := ""
+					for _, r := range returnsOf(fn) {
+						if r.Block() != b && reachableAvoiding(fn.Blocks[0], r.Block(), cut) {
+							skipped = "return at " + c.P.InstrPos(r) + " is reachable without the flag having been rewritten (path " + strings.Join(pathAvoiding(fn.Blocks[0], r.Block(), cut), ">") + ")"
+						}
+					}
+					if skipped == "" {
+						c.OK(rule, FuncName(fn), "flag rewritten on every notification", c.P.InstrPos(call), "the write lies on every path through EpochConfirmed")
+					} else {
+						c.FailX(Oblig{Rule: rule, Func: FuncName(fn), Construct: "flag rewritten on every notification", Pos: c.P.InstrPos(call), Kind: "violation",
+							Detail: "some notifications are ignored, so the flag is not `epoch >= activationEpoch` of the most recently confirmed epoch (regressions / repeats): " + skipped})
+					}
 				} else {
 					c.FailX(Oblig{Rule: rule, Func: FuncName(fn), Construct: construct, Pos: c.P.InstrPos(call), Kind: "violation",
 						Detail: "the value handed to the flag writer is not `epoch >= activationEpoch`", Expected: "epoch >= <activation epoch field of the receiver>"})
